@@ -6,6 +6,8 @@
            replication factor, shard-index queries) before, so that process-local state differs.
            The monitors are the property statement on the observed digests: app hash,
            transaction results, events, DA fault counters identical on every run and node.
+   CRepeat: one failing message with several independent defects, executed several times in every
+           process on the same state: code, codespace, gas and log must be the same every time.
    CTally: the real Keeper.Tally on real staking/vote state against the model built from the
            loop step functions the theorems are about.
    CDa:    one CHALLENGING item resolved by the real EndBlocker against da_resolve. *)
@@ -56,13 +58,16 @@ Definition da_corr (c : da_ctx) (entries : list (Z * Z)) (invs : list (list Z)) 
   end.
 
 Inductive c14_case :=
-| CBlock (height : Z) (apphash results events faults : list Z)     (* one digest per process *)
+| CBlock (height : Z) (apphash results events faults consensus : list Z)     (* one digest per process *)
+| CRepeat (consensus full : list Z)   (* one failing multi-defect message: per execution, all processes: digest of
+                                         (codespace, code, gas) and digest of the same plus the log text *)
 | CTally (bonded : list (Z * Z * Z)) (votes : list gvote) (total_bonded : Z) (obs : res (list (Z * Z)))
 | CDa (c : da_ctx) (entries : list (Z * Z)) (invs : list (list Z)) (counters0 : list (Z * Z)) (o : da_obs).
 
 Definition c14_check (c : c14_case) : list Z :=
   match c with
-  | CBlock _ a r e f => flag 1 (all_same a) ++ flag 2 (all_same r) ++ flag 3 (all_same e) ++ flag 4 (all_same f)
+  | CBlock _ a r e f c => flag 1 (all_same a) ++ flag 2 (all_same r) ++ flag 3 (all_same e) ++ flag 4 (all_same f) ++ flag 5 (all_same c)
+  | CRepeat c f => flag 6 (all_same c) ++ flag 7 (all_same f)
   | CTally b v t o => flag 0 (tally_corr (gauge_tally b v t) o)
   | CDa c en invs c0 o => flag 0 (da_corr c en invs c0 o)
   end.
